@@ -13,11 +13,133 @@ import (
 	"strings"
 	"testing"
 
+	"github.com/prometheus/prometheus/model/labels"
 	"github.com/prometheus/prometheus/storage"
 	"github.com/prometheus/prometheus/tsdb/chunkenc"
 	"github.com/prometheus/prometheus/tsdb/chunks"
 	"github.com/prometheus/prometheus/tsdb/tombstones"
+	"github.com/prometheus/prometheus/util/annotations"
+
+	"github.com/thanos-io/thanos/pkg/block/metadata"
 )
+
+// ---- the whole modifier: several series through the real WithDeletionModifier(...).Modify --------
+
+type c48set struct {
+	series []storage.ChunkSeries
+	i      int
+}
+
+func (s *c48set) Next() bool                        { s.i++; return s.i <= len(s.series) }
+func (s *c48set) At() storage.ChunkSeries           { return s.series[s.i-1] }
+func (s *c48set) Err() error                        { return nil }
+func (s *c48set) Warnings() annotations.Annotations { return nil }
+
+type c48log struct{}
+
+func (c48log) DeleteSeries(labels.Labels, tombstones.Intervals) {}
+func (c48log) ModifySeries(labels.Labels, labels.Labels)        {}
+func (c48log) SeriesProcessed()                                 {}
+
+type c48series struct {
+	inst string
+	ts   [][]int64
+}
+
+type c48req struct {
+	inst string // equality matcher on label inst; "" = no matcher (matches every series)
+	ivs  tombstones.Intervals
+}
+
+// c48modify rewrites the series with the requests (twice with the same modifier, as a rewrite of
+// two blocks does) and compares each pass with the statement: a series matched by a request
+// without intervals disappears; otherwise exactly the samples outside the union of the matching
+// requests' closed intervals stay.
+func c48modify(in []c48series, reqs []c48req, msgs *[]string) {
+	var dreqs []metadata.DeletionRequest
+	for _, r := range reqs {
+		dr := metadata.DeletionRequest{Intervals: append(tombstones.Intervals(nil), r.ivs...)}
+		if r.inst != "" {
+			dr.Matchers = metadata.Matchers{labels.MustNewMatcher(labels.MatchEqual, "inst", r.inst)}
+		}
+		dreqs = append(dreqs, dr)
+	}
+	mod := WithDeletionModifier(dreqs...)
+	for pass := 0; pass < 2; pass++ {
+		set := &c48set{}
+		for _, sr := range in {
+			var metas []chunks.Meta
+			for _, ts := range sr.ts {
+				metas = append(metas, c48chunk(ts))
+			}
+			ms := metas
+			set.series = append(set.series, &storage.ChunkSeriesEntry{
+				Lset:            labels.FromStrings("inst", sr.inst),
+				ChunkIteratorFn: func(chunks.Iterator) chunks.Iterator { return storage.NewListChunkSeriesIterator(ms...) },
+			})
+		}
+		_, out := mod.Modify(nil, set, c48log{}, c48log{})
+		got := map[string][]int64{}
+		failed := false
+		for out.Next() {
+			cs := out.At()
+			it := cs.Iterator(nil)
+			key := cs.Labels().Get("inst")
+			got[key] = []int64{}
+			for it.Next() {
+				si := it.At().Chunk.Iterator(nil)
+				for si.Next() != chunkenc.ValNone {
+					t, _ := si.At()
+					got[key] = append(got[key], t)
+				}
+			}
+			if it.Err() != nil {
+				failed = true
+			}
+		}
+		if out.Err() != nil || failed {
+			return
+		}
+		for _, sr := range in {
+			whole := false
+			var del tombstones.Intervals
+			for _, r := range reqs {
+				if r.inst != "" && r.inst != sr.inst {
+					continue
+				}
+				if len(r.ivs) == 0 {
+					whole = true
+				}
+				del = append(del, r.ivs...)
+			}
+			want := []int64{}
+			for _, ts := range sr.ts {
+				for _, t := range ts {
+					in := false
+					for _, iv := range del {
+						if iv.Mint <= t && t <= iv.Maxt {
+							in = true
+						}
+					}
+					if !in {
+						want = append(want, t)
+					}
+				}
+			}
+			g, present := got[sr.inst]
+			switch {
+			case whole && present && len(g) > 0:
+				if len(*msgs) < 4 {
+					*msgs = append(*msgs, fmt.Sprintf("requests %v, pass %d: series inst=%s is matched by a whole-series deletion but the rewrite keeps %v", reqs, pass+1, sr.inst, g))
+				}
+			case !whole && fmt.Sprint(g) != fmt.Sprint(want) && !(len(want) == 0 && !present):
+				if len(*msgs) < 4 {
+					*msgs = append(*msgs, fmt.Sprintf("series inst=%s %v, requests %v, pass %d: rewritten series holds %v (present=%v), the samples outside the requested intervals are %v", sr.inst, sr.ts, reqs, pass+1, g, present, want))
+				}
+			}
+		}
+	}
+}
 
 func c48chunk(ts []int64) chunks.Meta {
 	c := chunkenc.NewXORChunk()
@@ -75,6 +197,44 @@ func TestGovcReplay(t *testing.T) {
 	c48run([][]int64{{1, 2}, {10, 11}}, tombstones.Intervals{{Mint: 1, Maxt: 1}, {Mint: 2, Maxt: 2}}, &msgs)
 	c48run([][]int64{{0, 10, 20}, {30, 40}}, tombstones.Intervals{{Mint: 20, Maxt: 30}}, &msgs)
 	c48run([][]int64{{0, 10, 20}, {30, 40}}, tombstones.Intervals{{Mint: 2, Maxt: 10}}, &msgs)
+	// whole modifier: single-instant intervals, several requests matching one series with touching
+	// or overlapping intervals followed by a series matching only the first, whole-series requests
+	two := []c48series{{"1", [][]int64{{0, 1, 2}, {10, 11, 12}}}, {"2", [][]int64{{0, 1, 2}, {10, 11, 12}}}}
+	c48modify(two, []c48req{{"2", tombstones.Intervals{{Mint: 10, Maxt: 10}}}}, &msgs)
+	c48modify(two, []c48req{{"", tombstones.Intervals{{Mint: 0, Maxt: 2}}}, {"1", tombstones.Intervals{{Mint: 2, Maxt: 11}}}}, &msgs)
+	c48modify(two, []c48req{{"1", nil}, {"", tombstones.Intervals{{Mint: 1, Maxt: 1}, {Mint: 11, Maxt: 11}}}}, &msgs)
+	rm := rand.New(rand.NewSource(11))
+	for i := 0; i < 300; i++ {
+		var in []c48series
+		for k := 0; k < 1+rm.Intn(3); k++ {
+			sr := c48series{inst: fmt.Sprint(k + 1)}
+			t0 := int64(0)
+			for c := 0; c < 1+rm.Intn(3); c++ {
+				var ts []int64
+				for j := 0; j < 1+rm.Intn(4); j++ {
+					t0 += int64(1 + rm.Intn(3))
+					ts = append(ts, t0)
+				}
+				sr.ts = append(sr.ts, ts)
+			}
+			in = append(in, sr)
+		}
+		var reqs []c48req
+		for k := 0; k < 1+rm.Intn(3); k++ {
+			r := c48req{}
+			if rm.Intn(3) > 0 {
+				r.inst = fmt.Sprint(1 + rm.Intn(3))
+			}
+			if rm.Intn(6) > 0 {
+				for j := 0; j < 1+rm.Intn(3); j++ {
+					a := int64(rm.Intn(20))
+					r.ivs = append(r.ivs, tombstones.Interval{Mint: a, Maxt: a + int64(rm.Intn(4))})
+				}
+			}
+			reqs = append(reqs, r)
+		}
+		c48modify(in, reqs, &msgs)
+	}
 	rnd := rand.New(rand.NewSource(7))
 	for i := 0; i < 400; i++ {
 		var cts [][]int64
